@@ -105,6 +105,10 @@ class Generator(Curve, Point):
             If something goes wrong, this list will be empty.
         """
         r, s = signature
+        order = self._order
+        if r < 1 or r >= order or s < 1 or s >= order or r >= self._p:  # type: ignore[operator]
+            # not a signature (see verify), or r is not an x coordinate: nobody signed this
+            return []
 
         try:
             points = self.points_for_x(r)
